@@ -157,6 +157,9 @@ size_t apduCmdDec(apdu_cmd_t* cmd, const octet apdu[], size_t count)
 				return SIZE_MAX;
 			cdf_len_len = 3;
 			cdf_len = apdu[1], cdf_len *= 256, cdf_len += apdu[2];
+			// нулевая длина в расширенной форме?
+			if (cdf_len == 0)
+				return SIZE_MAX;
 		}
 		apdu += cdf_len_len, count -= cdf_len_len;
 	}
@@ -171,6 +174,9 @@ size_t apduCmdDec(apdu_cmd_t* cmd, const octet apdu[], size_t count)
 	{
 	case 0:
 		rdf_len = 0;
+		// расширенная форма вместо короткой?
+		if (cdf_len_len == 3 && cdf_len < 256)
+			return SIZE_MAX;
 		break;
 	case 1:
 		// короткая форма
